@@ -55,6 +55,9 @@ func (fr *Frame) callVals(c *ssa.CallCommon, fv *Val, args []*Val, argVals []ssa
 	} else if c.Value != nil {
 		what = "dynamic " + c.Value.Name()
 		if u, ok := c.Value.(*ssa.UnOp); ok {
+			if g, ok := u.X.(*ssa.Global); ok {
+				what = "dynamic global " + g.Name()
+			}
 			if fa, ok := u.X.(*ssa.FieldAddr); ok {
 				if st, ok := deref(fa.X.Type()).Underlying().(*types.Struct); ok {
 					what = "dynamic field " + st.Field(fa.Field).Name()
